@@ -254,6 +254,20 @@ def scan_assumptions(image_text):
         elif 'uninterp spec fn' in s:
             m = re.search(r'uninterp spec fn (\w+)', s)
             out.append('uninterpreted %s' % m.group(1))
+    # wrappers of the prelude / stand-ins whose bodies are trusted (R2, R3, R6, R11, D3, D6): external_body with a contract
+    end = image_text.find('} // mod vf_prelude')
+    pre_lines = image_text[:end].split('\n') if end > 0 else []
+    for i, ln in enumerate(pre_lines):
+        if 'verifier::external_body' in ln and 'external_type_specification' not in ln:
+            for j in range(i, min(i + 6, len(pre_lines))):
+                m = re.search(r'\bfn\s+(\w+)', pre_lines[j])
+                if m:
+                    out.append('prelude wrapper (external_body, contract assumed) %s' % m.group(1))
+                    break
+    for m in re.finditer(r'#\[verifier::external_body\]\s*(?:pub(?:\([a-z]+\))?\s+)?const\s+(\w+)', image_text):
+        out.append('opaque const (R12) %s' % m.group(1))
+    for m in re.finditer(r'#\[verifier::external\]\s*impl\b([^{;]*)\{', image_text):
+        out.append('impl outside the verified text (R13): impl%s' % re.sub(r'\s+', ' ', m.group(1)).rstrip())
     return sorted(set(out))
 
 
